@@ -79,7 +79,7 @@ func (cp ConstantPacer) Pace(elapsed time.Duration, hits uint64) (time.Duration,
 		}
 		return time.Duration(due) - elapsed, false
 	}
-	if math.MaxInt64/interval < hits {
+	if math.MaxInt64/interval <= hits {
 		// We would overflow delta if we continued, so stop the attack.
 		return 0, true
 	}
